@@ -102,6 +102,9 @@ type State struct {
 	Used   int              `json:"used"`
 	Res    map[string]int64 `json:"res"`  // resources present: type -> value
 	RelC   []string         `json:"relc"` // the model components the registry reports as relation components
+	// resource type -> id, as the world reports it now and as it was when the world was set up
+	ResID  map[string]int `json:"resid"`
+	ResID0 map[string]int `json:"resid0"`
 	// handles issued before the last Reset that the world reports alive (they must have been issued again since)
 	OldAlive []ecs.Entity `json:"oldalive"`
 	NTypes   int          `json:"ntypes"` // number of registered component types
@@ -594,6 +597,7 @@ type Exec struct {
 	custom       map[string]ecs.EventType
 	res          map[string]resHandle
 	regCount     int
+	resRot       int
 	oldIssued    []ecs.Entity // handles issued before the last Reset of this world object
 	filtersBuilt int
 	baseTypes    int // component types registered when the world was set up
@@ -1169,7 +1173,7 @@ func (x *Exec) entRec(e ecs.Entity) EntRec {
 }
 
 func (x *Exec) project() (st State) {
-	st = State{Alive: []ecs.Entity{}, Dead: []ecs.Entity{}, Ents: []EntRec{}, Res: map[string]int64{}, RelC: []string{}, OldAlive: []ecs.Entity{}}
+	st = State{Alive: []ecs.Entity{}, Dead: []ecs.Entity{}, Ents: []EntRec{}, Res: map[string]int64{}, RelC: []string{}, OldAlive: []ecs.Entity{}, ResID: map[string]int{}, ResID0: map[string]int{}}
 	defer func() {
 		if r := recover(); r != nil {
 			// a projection that panics is reported as an impossible state
@@ -1187,6 +1191,7 @@ func (x *Exec) project() (st State) {
 	st.Locked = x.w.IsLocked()
 	st.Used = x.w.Stats().Entities.Used
 	st.Res = x.resState()
+	st.ResID, st.ResID0 = x.resIDs()
 	if len(x.oldIssued) > 0 {
 		// (Alive reads the pool without a bounds check: only ids inside the pool's allocation are asked about)
 		limit := x.w.Stats().Entities.Capacity
